@@ -17,6 +17,7 @@ type bgInfo struct {
 	derived  map[ssa.Value]bool // contexts derived from the function's own WithCancel
 	cancel   ssa.Value          // the cancel func value returned by WithCancel
 	wc       *ssa.Call
+	required ssa.Value       // the most-derived context: the errgroup's when there is one, else WithCancel's
 	spawned  []*ssa.Function // closures started with go / errgroup.Go
 	spawnHow map[*ssa.Function]string
 	spawnAt  map[*ssa.Function]ssa.Instruction
@@ -43,6 +44,7 @@ func bgAnalyse(c *Ctx, name string) *bgInfo {
 			if ex, ok := ref.(*ssa.Extract); ok {
 				if ex.Index == 0 {
 					bi.derived[ex] = true
+					bi.required = ex
 				} else {
 					bi.cancel = ex
 				}
@@ -74,6 +76,7 @@ func bgAnalyse(c *Ctx, name string) *bgInfo {
 				for _, ref := range *call.Referrers() {
 					if ex, ok := ref.(*ssa.Extract); ok && ex.Index == 1 && !bi.derived[ex] {
 						bi.derived[ex] = true
+						bi.required = ex
 						changed = true
 					}
 				}
@@ -124,6 +127,9 @@ func (bi *bgInfo) ctxOK(v ssa.Value) (bool, string) {
 	for _, o := range os {
 		if !bi.derived[o] {
 			return false, "context " + path(v) + " may be " + path(o) + ", which the returned stream's Close does not cancel"
+		}
+		if bi.required != nil && o != bi.required {
+			return false, "context " + path(v) + " is an ancestor of the errgroup's context: Close cancels it, but the first failing call does not, so a goroutine blocked on it keeps the group (and the consumer waiting for its error) hanging"
 		}
 	}
 	return true, ""
